@@ -74,11 +74,14 @@ pub struct Cmd {
     /// next read fails once with ECONNRESET and the one after sees end-of-file. Some(false): orderly end of stream.
     #[serde(default)]
     pub stdin_socket_reset: Option<bool>,
+    /// the reader of the stderr pipe goes away after taking this many bytes (a log collector that dies)
+    #[serde(default)]
+    pub stderr_reader_leaves_after: Option<usize>,
 }
 
 impl Cmd {
     pub fn new(args: &[&str]) -> Cmd {
-        Cmd { args: args.iter().map(|a| a.as_bytes().to_vec()).collect(), env: vec![], stdin: StdinSpec::Null, stdout_file: None, stdout_closed_pipe: false, stdin_path: None, fsize_limit: None, pty: None, stdin_splits: vec![], stdout_nonblock_slow: None, env_bytes: vec![], stdout_reader_leaves_after: None, stdin_nonblock: false, stdin_socket_reset: None }
+        Cmd { args: args.iter().map(|a| a.as_bytes().to_vec()).collect(), env: vec![], stdin: StdinSpec::Null, stdout_file: None, stdout_closed_pipe: false, stdin_path: None, fsize_limit: None, pty: None, stdin_splits: vec![], stdout_nonblock_slow: None, env_bytes: vec![], stdout_reader_leaves_after: None, stdin_nonblock: false, stdin_socket_reset: None, stderr_reader_leaves_after: None }
     }
     pub fn env(mut self, k: &str, v: &str) -> Cmd {
         self.env.push((k.to_string(), v.to_string()));
@@ -460,9 +463,25 @@ pub fn run_limit(cmd: &Cmd, cwd: &Path, limit: Duration) -> Out {
         })
     };
     let mut se = child.stderr.take().unwrap();
+    let se_leave = cmd.stderr_reader_leaves_after;
     let err_thread = std::thread::spawn(move || {
         let mut v = vec![];
-        let _ = se.read_to_end(&mut v);
+        match se_leave {
+            None => {
+                let _ = se.read_to_end(&mut v);
+            }
+            Some(k) => {
+                let mut buf = [0u8; 256];
+                while v.len() < k {
+                    let want = (k - v.len()).min(buf.len());
+                    match se.read(&mut buf[..want]) {
+                        Ok(0) | Err(_) => break,
+                        Ok(n) => v.extend_from_slice(&buf[..n]),
+                    }
+                }
+                drop(se);
+            }
+        }
         v
     });
     let mut timed_out = false;
